@@ -133,7 +133,7 @@ def main():
     rep = vlib.Report("C04")
     cov = {"states": 0, "transitions": 0, "traces_validated_against_impl": 0, "samples": [], "tlc_runs": []}
     rng = random.Random(vlib.SEED)
-    big = ["Expr2", "Stmt2", "Types3", "Fb2", "Func2", "Prog2", "FbS3", "FuncS3", "ProgS3", "ConfigS5", "Sfc3", "Config3"] if tier == "quick" else ["Expr3", "Stmt3", "Types4", "Fb3", "Prog3", "Func3", "Sfc4", "Config4"]
+    big = ["Expr2", "Stmt2", "Types3", "Fb2", "Func2", "Prog2", "FbS3", "FuncS3", "ProgS3", "ConfigS5", "Sfc3", "Config3"] if tier == "quick" else ["Expr3", "Stmt2", "Types4", "Fb2", "Func2", "Prog2", "FbS3", "FuncS3", "ProgS3", "ConfigS5", "Sfc3", "Config4"]
     small = ["Expr1", "Stmt1", "Types2", "Fb1", "Sfc2", "Config2"]
     lit_pool = ThreadPoolExecutor(max_workers=1)
     lit_cfgs = ["int", "real", "dur", "time", "text"]
@@ -144,7 +144,7 @@ def main():
                                                          name="c04_MC_Literal_" + g) for g in lit_cfgs])
     ds_small = gramcheck.derivations(small, cov)
     inputs = []      # (class label, text)
-    k = 1 if tier == "quick" else 4
+    k = 1 if tier == "quick" else 2
     n_big = 0
     for ds_big in gramcheck.batches(big, tier, cov):      # thorough: streamed, only the texts are kept
         for d in ds_big:
@@ -170,7 +170,7 @@ def main():
     if tier != "quick":
         for a in reps:
             for b in reps:
-                for c in reps[::2]:
+                for c in reps[::4]:
                     inputs.append(("tokens3", a + " " + b + " " + c))
     else:
         for _ in range(20000):
@@ -216,7 +216,7 @@ def main():
                     inputs.append(("spec-literal:" + x["kind"], CONTEXTS[2].replace("{}", t)))
                 if x["kind"] == "dur":
                     inputs.append(("spec-literal:" + x["kind"], CONTEXTS[10].replace("{}", t)))
-    nsoup = 2000 if tier == "quick" else 40000
+    nsoup = 2000 if tier == "quick" else 20000
     for i in range(nsoup):
         inputs.append(("soup", corpus.soup(rng, rng.randrange(1, 120))))
         n = rng.choice([1, 3, 10, 100, 1000]) if i % 50 else rng.randrange(1000, 65536)
